@@ -5,7 +5,7 @@ From Arrai Require Import Base.Val Spec.SetAlg Eval.Interp.
 Theorem let_is_arrow fuel rho p e1 e2 :
   eval (S (S fuel)) rho (ELet p e1 e2) = eval (S (S fuel)) rho (EArrow e1 (EFn p e2)).
 Proof.
-  remember (S fuel) as f eqn:Ef. cbn [eval].
+  remember (S fuel) as f eqn:Ef. cbn [eval evalF].
   destruct (eval f rho e1) as [v| | |]; simpl; try reflexivity.
   subst f. reflexivity.
 Qed.
@@ -13,7 +13,7 @@ Qed.
 Theorem arrow_is_call fuel rho p e1 e2 v :
   eval (S fuel) rho e1 = Ok v ->
   eval (S (S fuel)) rho (EArrow e1 (EFn p e2)) = eval (S (S fuel)) rho (ECall (EFn p e2) e1).
-Proof. intros H. remember (S fuel) as f eqn:Ef. cbn [eval]. rewrite H. subst f. reflexivity. Qed.
+Proof. intros H. remember (S fuel) as f eqn:Ef. cbn [eval evalF]. rewrite H. subst f. reflexivity. Qed.
 
 (* when e1 fails, all three fail the same way *)
 Theorem let_arrow_call_fail_together fuel rho p e1 e2 :
@@ -21,36 +21,36 @@ Theorem let_arrow_call_fail_together fuel rho p e1 e2 :
   eval (S (S fuel)) rho (ELet p e1 e2) = Err /\
   eval (S (S fuel)) rho (EArrow e1 (EFn p e2)) = Err /\
   eval (S (S fuel)) rho (ECall (EFn p e2) e1) = Err.
-Proof. intros H. remember (S fuel) as f eqn:Ef. cbn [eval]. rewrite H. subst f. repeat split. Qed.
+Proof. intros H. remember (S fuel) as f eqn:Ef. cbn [eval evalF]. rewrite H. subst f. repeat split. Qed.
 
 (* && || cond evaluate only the branches they select: the result does not depend
    on the unselected operand at all (it may fail, loop or be ill-typed) *)
 Theorem and_short_circuits fuel rho a b x :
   eval fuel rho a = Ok (D x) -> is_true x = false -> eval (S fuel) rho (EAnd a b) = Ok (D x).
-Proof. intros H Hf. cbn [eval]. rewrite H. simpl. rewrite Hf. reflexivity. Qed.
+Proof. intros H Hf. cbn [eval evalF]. rewrite H. simpl. rewrite Hf. reflexivity. Qed.
 
 Theorem or_short_circuits fuel rho a b x :
   eval fuel rho a = Ok (D x) -> is_true x = true -> eval (S fuel) rho (EOr a b) = Ok (D x).
-Proof. intros H Hf. cbn [eval]. rewrite H. simpl. rewrite Hf. reflexivity. Qed.
+Proof. intros H Hf. cbn [eval evalF]. rewrite H. simpl. rewrite Hf. reflexivity. Qed.
 
 Theorem and_selects_right fuel rho a b x :
   eval fuel rho a = Ok (D x) -> is_true x = true -> eval (S fuel) rho (EAnd a b) = eval fuel rho b.
-Proof. intros H Hf. cbn [eval]. rewrite H. simpl. rewrite Hf. reflexivity. Qed.
+Proof. intros H Hf. cbn [eval evalF]. rewrite H. simpl. rewrite Hf. reflexivity. Qed.
 
 Theorem cond_selects_first_true fuel rho c v arms dflt x :
   eval fuel rho c = Ok (D x) -> is_true x = true ->
   eval (S fuel) rho (ECond ((c, v) :: arms) dflt) = eval fuel rho v.
-Proof. intros H Hf. cbn [eval]. rewrite H. simpl. rewrite Hf. reflexivity. Qed.
+Proof. intros H Hf. cbn [eval evalF]. rewrite H. simpl. rewrite Hf. reflexivity. Qed.
 
 Theorem cond_skips_false fuel rho c v arms dflt x :
   eval fuel rho c = Ok (D x) -> is_true x = false ->
   eval (S fuel) rho (ECond ((c, v) :: arms) dflt) = eval (S fuel) rho (ECond arms dflt).
-Proof. intros H Hf. cbn [eval]. rewrite H. simpl. rewrite Hf. reflexivity. Qed.
+Proof. intros H Hf. cbn [eval evalF]. rewrite H. simpl. rewrite Hf. reflexivity. Qed.
 
 (* a let-bound value can be read at every use: the bound name evaluates to the value *)
 Theorem let_bound_name_is_its_value fuel rho x v rest :
   eval (S fuel) ((x, v) :: rest ++ rho) (EVar x) = Ok v.
-Proof. cbn [eval env_get]. unfold name_eqb. 
+Proof. cbn [eval evalF env_get]. unfold name_eqb. 
   assert (E : name_cmp x x = Eq).
   { induction x as [|c x IH]; [reflexivity|]. simpl. rewrite Z.compare_refl. exact IH. }
   rewrite E. reflexivity.
